@@ -281,7 +281,8 @@ EXEC = "as_(select(G.referent, self.executor_reference), 'ProcessPoolExecutor')"
 c.rely("manager-shares-the-executor-tables",
        f"{EXEC}._processes is self.processes and {EXEC}._pending_work_items is self.pending_work_items and "
        f"{EXEC}._running_work_items is self.running_work_items and "
-       f"implies({EXEC}._processes_management_lock is not None, {EXEC}._processes_management_lock is self.processes_management_lock)", "A-alias")
+       f"{EXEC}._processes_management_lock is self.processes_management_lock and {EXEC}._call_queue is not None and {EXEC}._result_queue is not None", "A-alias")
+# (an executor drops its management lock and queues only once its manager thread was joined: shutdown contract; the thread's own copies are set in its constructor)
 c.rely("registered-pids-are-live-children", "forall(Int, lambda k: implies(k in self.processes, G.pid_live[k] and self.processes[k].pid == k))", "A-pids")
 c.rely("dispatched-ids-are-running",
        "implies(not is_int(result_item) and result_item.work_id in self.pending_work_items, mem(self.running_work_items, result_item.work_id))", "A-atomic")
@@ -336,7 +337,10 @@ c.ensures("pid/respawns-whenever-work-waits-and-the-pool-is-short",
           "old(len(self.processes)) - ite(old(result_item in self.processes), 1, 0) < log_arg('deref', 0, 1)._max_workers, "
           "log_count('call:ProcessPoolExecutor._adjust_process_count') == 1)", prop="C07")
 c.ensures("pid/reads-the-executor-only-when-work-waits", f"implies({PID}, (log_count('deref') == 1) == {WAITING})", prop="C07")
-c.raises("result/only-from-respawn", "BaseException", post=f"{PID}")
+# the only exception the manager thread may meet here is a failed spawn of the replacement worker (anything else kills the thread and every pending future hangs)
+c.raises("result/only-a-failed-spawn-from-the-respawn", "OSError", post=f"{PID}")
+c.raises_only("result/nothing-but-a-failed-spawn-escapes")
+c.replay_for("result/nothing-but-a-failed-spawn-escapes", "respawn_after_shutdown_nowait")
 c.modifies("contents(self.pending_work_items)", "contents(self.running_work_items)", "contents(self.processes)",
            "G.fut_n_exc", "G.fut_n_res", "G.fut_exc", "G.fut_exc_cls", "G.fut_res", "G.sem_released", "G.joined", "G.started", "G.pid_live", "G.proc_of_pid")
 c.assumes("A-atomic")
@@ -384,7 +388,7 @@ i.iter_post("spawn/registered-under-its-pid",
             "log_arg('start', 0, 1) in self._processes and self._processes[log_arg('start', 0, 1)] is log_arg('start', 0, 0)", prop="C08")
 
 # ---------------------------------------------------------------- wait_result_broken_or_wakeup (C02)
-c = M.contract(f"{EMT}.wait_result_broken_or_wakeup", props=["C02", "C07"])
+c = M.contract(f"{EMT}.wait_result_broken_or_wakeup", props=["C02", "C07", "C05", "C20"])
 c.param("self", T.Ref(EMT))
 c.returns(T.Tup(T.Union(T.NoneT, T.Int, T.Ref("_ResultItem"), T.Exc()), T.Bool, T.Exc(nullable=True)))
 c.ensures("classify/broken-comes-with-its-error", "implies(result[1], result[2] is not None)", prop="C02")
@@ -414,6 +418,9 @@ c.ensures("classify/sentinel-only-is-a-dead-worker",
           "log_count('call:get_exitcodes_terminated_worker') == 1 and log_arg('call:get_exitcodes_terminated_worker', 0, 1) is self.processes)", prop="C02")
 c.ensures("classify/reads-result-only-when-ready", f"implies(not mem({READY}, obj({RR})), log_count('recv') + log_count('recv_raises') == 0)", prop="C02")
 c.ensures("wakeup/cleared-on-return", "log_count('call:_ThreadWakeup.clear') == 1 and log_arg('call:_ThreadWakeup.clear', 0, 1) is self.thread_wakeup", prop="C02")
+# wake-up tokens may only be discarded once the wait has returned (they have been observed): clearing before waiting loses a wake-up sent in between and
+# the manager sleeps although a submit / a shutdown is pending (C05: shutdown is never missed; C02/C01: no lost wake-up)
+c.ensures("wakeup/cleared-only-after-the-wait-returned", "log_before('wait', 'call:_ThreadWakeup.clear')", prop=["C02", "C05"])
 c.raises_only("classify/no-exception")
 c.modifies()
 c.assumes("A-kernel")
@@ -439,6 +446,11 @@ c = M.contract(f"{EMT}.kill_workers", props=["C02", "C06", "C20"])
 c.param("self", T.Ref(EMT)).param("reason", T.Str, default=VStr(""))
 c.ensures("kill/no-worker-left-registered", PROCS_EMPTY)
 c.ensures("kill/every-worker-tree-killed-and-reaped", ALL_KILLED)
+# C20 (no thread / descriptor / semaphore is left behind): once every worker is dead nobody drains the call pipe; a feeder thread blocked in a write of a large
+# item ends only when the last read end - the parent's own - is closed (EPIPE). Without it the thread, its pipe and the queue's locks leak at every killed lifecycle.
+c.ensures("kill/parents-read-end-of-the-call-queue-closed-so-that-a-blocked-feeder-thread-can-end",
+          "exists_event('conn_close', lambda cn: cn is self.call_queue._reader)", prop="C20")
+c.replay_for("parents-read-end-of-the-call-queue-closed", "feeder_left_behind")
 c.raises_only("kill/no-exception")
 c.modifies("contents(self.processes)", "G.killed", "G.joined", "G.ps_killed", "G.pid_live")
 i = M.invariant(f"{EMT}.kill_workers", 0, "while self.processes:")
@@ -608,14 +620,43 @@ i.iter_post("keeps-running-while-work-is-pending",
             f"implies(log_count('{FLAGC}') == 1, len(self.pending_work_items) > 0) and "
             f"implies(log_count('{FLAGC}') == 0, log_arg('{ISD}', -1, 0) == False)", prop="C05")
 
+# ---------------------------------------------------------------- the manager thread's constructor: discharges A-alias at its source
+c = M.contract(f"{EMT}.__init__", props=["C02", "C03", "C04", "C05", "C07"])
+c.param("self", T.Ref(EMT)).param("executor", T.Ref(PPE))
+c.requires("executor-has-its-internals", "executor._executor_manager_thread_wakeup is not None and executor._call_queue is not None and "
+           "executor._result_queue is not None and executor._processes_management_lock is not None")
+c.ensures("manager/works-on-the-very-tables-of-its-executor",
+          "self.processes is executor._processes and self.pending_work_items is executor._pending_work_items and "
+          "self.running_work_items is executor._running_work_items and self.processes_management_lock is executor._processes_management_lock and "
+          "self.thread_wakeup is executor._executor_manager_thread_wakeup and self.shutdown_lock is executor._shutdown_lock and "
+          "self.executor_flags is executor._flags and self.call_queue is executor._call_queue and self.result_queue is executor._result_queue and "
+          "self.work_ids_queue is executor._work_ids")
+c.ensures("manager/holds-only-a-weak-reference-to-its-executor", "as_(select(G.referent, self.executor_reference), 'ProcessPoolExecutor') is executor")
+c.raises_only("manager/no-exception")
+c.modifies("self.thread_wakeup", "self.shutdown_lock", "self.executor_reference", "self.executor_flags", "self.processes", "self.call_queue", "self.result_queue",
+           "self.work_ids_queue", "self.pending_work_items", "self.running_work_items", "self.processes_management_lock", "self.daemon", "G.referent")
+
 # ---------------------------------------------------------------- submit / _ensure_executor_running / shutdown
-c = M.contract(f"{PPE}._start_executor_manager_thread", props=["C05"])
+c = M.contract(f"{PPE}._start_executor_manager_thread", props=["C05", "C02"])
 c.param("self", T.Ref(PPE))
+c.requires("executor-has-its-internals", "self._executor_manager_thread_wakeup is not None and self._call_queue is not None and "
+           "self._result_queue is not None and self._processes_management_lock is not None")
 c.ensures("start/manager-exists-after", "self._executor_manager_thread is not None")
-c.ensures("start/keeps-existing-manager", "implies(old(self._executor_manager_thread) is not None, self._executor_manager_thread is old(self._executor_manager_thread))")
-c.modifies("self._executor_manager_thread", f"glob:{PE}.process_pool_executor_at_exit")
-c.note("trusted summary of thread creation: the constructor of _ExecutorManagerThread and Thread.start are externals")
-c.trusted_summary = True
+c.ensures("start/keeps-existing-manager", "implies(old(self._executor_manager_thread) is not None, self._executor_manager_thread is old(self._executor_manager_thread) and log_len() == 0)")
+NEWT = "call:_ExecutorManagerThread.__init__"
+c.ensures("start/new-manager-built-on-this-executor-started-and-registered-for-interpreter-exit",
+          f"implies(old(self._executor_manager_thread) is None, log_count('{NEWT}') == 1 and log_arg('{NEWT}', 0, 1) is self._executor_manager_thread and "
+          f"log_arg('{NEWT}', 0, 2) is self and fresh(self._executor_manager_thread) and log_count('thread_start') == 1 and "
+          "log_arg('thread_start', 0, 0) is self._executor_manager_thread and log_count('wkd_set') == 1 and log_arg('wkd_set', 0, 0) is _threads_wakeups and "
+          "log_arg('wkd_set', 0, 1) is self._executor_manager_thread and log_arg('wkd_set', 0, 2)[0] is self._shutdown_lock and "
+          "log_arg('wkd_set', 0, 2)[1] is self._executor_manager_thread_wakeup and log_before('thread_start', 'wkd_set') and "
+          "process_pool_executor_at_exit is not None)", prop="C05")
+c.ensures("start/exit-hook-registered-once", "implies(old(process_pool_executor_at_exit) is not None, log_count('register_atexit') == 0 and "
+          "process_pool_executor_at_exit is old(process_pool_executor_at_exit)) and "
+          "implies(old(process_pool_executor_at_exit) is None and old(self._executor_manager_thread) is None, log_count('register_atexit') == 1 and "
+          "log_arg('register_atexit', 0, 0) is _python_exit)", prop="C05")
+c.raises("start/thread-creation-may-fail", "RuntimeError")
+c.modifies("self._executor_manager_thread", f"glob:{PE}.process_pool_executor_at_exit", "G.referent")
 
 c = M.contract(f"{PPE}._ensure_executor_running", props=["C08", "C07", "C02"])
 c.param("self", T.Ref(PPE))
@@ -638,7 +679,7 @@ c.replay_for("manager-woken-after-registering-workers", "unwatched_new_worker")
 c.raises("ensure/failed-spawn-or-wakeup-releases-the-lock", "Exception",
          post="log_tags()[-1] == 'release' and len(self._processes) <= max(old(len(self._processes)), self._max_workers)", prop="C08")
 c.raises_only("ensure/only-spawn-or-pipe-errors")
-c.modifies("contents(self._processes)", "G.started", "G.pid_live", "G.proc_of_pid", "self._executor_manager_thread", f"glob:{PE}.process_pool_executor_at_exit")
+c.modifies("contents(self._processes)", "G.started", "G.pid_live", "G.proc_of_pid", "self._executor_manager_thread", f"glob:{PE}.process_pool_executor_at_exit", "G.referent")
 
 c = M.contract(f"{PPE}.submit", props=["C02", "C03", "C05", "C07", "C08"])
 c.param("self", T.Ref(PPE)).param("fn", T.Obj).varargs("args").kwargs("kwargs")
@@ -678,7 +719,7 @@ c.ensures("submit/rep-invariants-kept", "forall(Int, lambda k: implies(G.work_id
 c.ensures("submit/under-the-shutdown-lock", "log_arg('acquire', 0, 0) is self._flags.shutdown_lock and log_pos('acquire', 0) == 0", prop="C03")
 c.ensures("submit/pool-topped-up", "len(self._processes) >= self._max_workers", prop=["C07", "C08"])
 c.modifies("self._queue_count", "contents(self._pending_work_items)", "G.work_ids", "contents(self._processes)", "G.started", "G.pid_live", "G.proc_of_pid",
-           "self._executor_manager_thread", f"glob:{PE}.process_pool_executor_at_exit")
+           "self._executor_manager_thread", f"glob:{PE}.process_pool_executor_at_exit", "G.referent")
 c.cover("healthy", "True")
 c.twin("submit/only-on-a-healthy-executor", "old(self._flags.shutdown)")
 
@@ -698,9 +739,13 @@ c.ensures("shutdown/waits-for-the-manager-when-asked",
           "implies(wait and old(self._executor_manager_thread) is not None, log_count('thread_join') == 1 and "
           "log_arg('thread_join', 0, 0) is old(self._executor_manager_thread) and log_before('call:_ThreadWakeup.wakeup', 'thread_join'))", prop=["C05", "C06"])
 c.ensures("shutdown/no-join-when-not-waiting", "implies(not wait, log_count('thread_join') == 0)", prop="C05")
-c.ensures("shutdown/drops-fd-holding-references",
-          "self._executor_manager_thread is None and self._executor_manager_thread_wakeup is None and self._call_queue is None and "
-          "self._result_queue is None and self._processes_management_lock is None", prop="C20")
+c.ensures("shutdown/drops-fd-holding-references-once-the-manager-thread-is-gone",
+          "self._executor_manager_thread is None and self._executor_manager_thread_wakeup is None and "
+          "implies(wait or old(self._executor_manager_thread) is None, self._call_queue is None and "
+          "self._result_queue is None and self._processes_management_lock is None)", prop="C20")
+c.ensures("shutdown/keeps-what-a-still-running-manager-thread-needs-to-replace-a-worker",
+          "implies(not wait and old(self._executor_manager_thread) is not None, self._call_queue is old(self._call_queue) and "
+          "self._result_queue is old(self._result_queue) and self._processes_management_lock is old(self._processes_management_lock))", prop=["C05", "C07"])
 c.raises("shutdown/only-pipe-errors-from-wakeup", "Exception")
 c.modifies("self._flags.shutdown", "self._flags.kill_workers", "self._executor_manager_thread", "self._executor_manager_thread_wakeup",
            "self._call_queue", "self._result_queue", "self._processes_management_lock")
